@@ -177,7 +177,7 @@ def satisfiable(alts, cond, ax):
 
 class Lic:
     def __init__(self, ctx, fn, flow, member_U=None, gated=None, ax=None, entry_U=None,
-                 line_caps=None, init_mode=False, member_writes=None, stale_zero=False):
+                 line_caps=None, init_mode=False, member_writes=None, stale_zero=False, key_bits=None):
         """member_U: 'this.m' -> DNF (object initialisation condition, in this-atoms)
         gated: usr -> (fn, cls, maskpos, {outpos: bit})   gated callees
         line_caps: varkey of a line object -> BV of its construction caps (M5)
@@ -199,6 +199,7 @@ class Lic:
         self.entry_U = dict(entry_U or {})
         self._pc_cache = {}
         self.stale_zero = stale_zero
+        self.key_bits = key_bits or {}
         self.zero_then_assigned = self._zero_then_assigned() if stale_zero else set()
         if fn.cfg:
             self._solve()
@@ -628,7 +629,17 @@ class Lic:
                 continue
             open_ = frozenset(c for c in u if DECL in c)
             rest = frozenset(c for c in u if DECL not in c)
-            out[key] = d_or(rest, d_and(open_, rel))
+            r2 = rel
+            bits = self.key_bits.get(key)
+            if bits is not None:
+                # only the mask bits that gate this cell matter for it; other bits would just multiply cases
+                r2 = merge_complementary(frozenset(
+                    frozenset(l for l in c if not l[0].startswith('b:') or int(l[0].rsplit(':', 1)[1]) in bits)
+                    for c in rel))
+                if frozenset() in r2:
+                    out[key] = u
+                    continue
+            out[key] = d_or(rest, d_and(open_, r2))
         return out
 
     def _join(self, a, c, p, b):
